@@ -77,12 +77,12 @@ def make_grids(codes, field, nodata, fd_dtype="i8", ta_dtype="f8", layout="C",
             tdt = np.float64          # values or their sums need more than 24 bits
         ta = g.Grid("ta", nc, nr, dtype=tdt, nodata=nodata)
         ta.data = _layout(f, layout)
-        if bounded:
+        if bounded and hasattr(type(ta), "mindata"):
             # documented Grid feature: admissible range of the *cell values* (here
             # exactly the range of the field); sums and the no-data value lie outside
             ta.mindata = float(np.min(f))
             ta.maxdata = float(np.max(f))
-    elif bounded:
+    elif bounded and hasattr(type(fd), "mindata"):
         fd.mindata = float(np.min(codes))
         fd.maxdata = float(np.max(codes))
     return fd, ta
